@@ -198,6 +198,7 @@ def rnd_key(rng, i, style):
 
 class C06(PropertyCheck):
     pid = "C06"
+    release_too = True       # both build profiles (review 2: the both-modes theorems must be tied to a release build too)
     rule = ("streams: archives built through TextArchive::new + set_title/set_message (0-40 keys quick, up to 400 thorough; message "
             "lengths 0-9 for every length mod 4 in both encodings plus long ones; alphabets ASCII / lossless Shift-JIS incl. half-width "
             "katakana and trail byte 0x5C / BMP incl. U+FEFF,U+FFFE,U+FFFF / astral / byte-coincidence units / lone CR) x 2 encodings x 2 "
